@@ -43,6 +43,7 @@ type Contract struct {
 	nooverflow bool // int theory: treat signed overflow as wrapping-free without obligations (spec functions)
 	hints    []*Clause
 	split    bool // one postcondition obligation per return site
+	prepare  []string
 }
 
 func (c *Contract) get(kind string) []*Clause {
@@ -133,6 +134,10 @@ func parseContracts(pkg *packages.Package) ([]*Contract, error) {
 					cur.inline = true
 				case "split":
 					cur.split = true
+				case "prepare":
+					// Go statement(s) run on generated inputs before the contract is executed
+					// (steers the bounded input generator into the precondition; not part of the proof)
+					cur.prepare = append(cur.prepare, rest)
 				case "mode":
 					cur.mode = rest
 				case "trusted":
